@@ -78,6 +78,15 @@ class Engine:
     def _check(self, *extra):
         t = time.time()
         r = self.solver.check(*extra)
+        if r == z3.unknown:
+            # the timeout is wall-clock: on a loaded machine a trivial query can run out of it.  One retry with a
+            # six times longer limit; an answer that is still `unknown` is reported (inconclusive), never guessed.
+            self.retried = getattr(self, 'retried', 0) + 1
+            self.solver.set('timeout', self.query_timeout_ms * 6)
+            try:
+                r = self.solver.check(*extra)
+            finally:
+                self.solver.set('timeout', self.query_timeout_ms)
         self.solver_s += time.time() - t
         self.queries[str(r)] = self.queries.get(str(r), 0) + 1
         return r
@@ -856,7 +865,16 @@ class SInt:
         return hash(engine().pin(self))
 
     def __format__(self, spec):
-        return format(engine().sample(self), spec)
+        v = engine().sample(self)
+        text = format(v, spec)
+        # f'{octet:08b}' is read back digit by digit (bgpls unpack_flags): keep every digit tied to its symbolic bit
+        # (BitStr below) when the width is fixed by the carrier's bounds; anything else is plain formatting (sampled)
+        if spec[-1:] == 'b' and spec[:-1].isdigit() and self.lo is not None and self.hi is not None \
+                and self.lo >= 0 and self.hi < 2 ** _int(spec[:-1]) and _len(text) == _int(spec[:-1]):
+            out = BitStr(text)
+            out._value = self
+            return out
+        return text
 
     def __str__(self):
         # sampled text that still knows its integer (sx.snum.NumStr: isdigit()/int() of it are exact) — C18
@@ -1089,6 +1107,32 @@ class SampledStr(str):
     def split(self, *a, **k):
         self._taint()
         return str.split(self, *a, **k)
+
+
+class BitChar(SampledStr):
+    """one digit of the binary rendering of a carrier: its text is the model's digit, int() of it (through the int
+    shim: __sx_int__) is the symbolic bit - so a flag field parsed from f'{octet:08b}' stays symbolic"""
+
+    def __sx_int__(self, base=10):
+        return self._bit
+
+
+class BitStr(SampledStr):
+    """fixed-width binary rendering of a carrier; iteration / indexing hand out BitChar"""
+
+    def __getitem__(self, k):
+        ch = str.__getitem__(self, k)
+        if _isinstance(k, _int):
+            n = _len(self)
+            idx = k if k >= 0 else n + k
+            c = BitChar(ch)
+            c._bit = (self._value >> (n - 1 - idx)) & 1
+            return c
+        return SampledStr(ch)
+
+    def __iter__(self):
+        for k in range(_len(self)):
+            yield self[k]
 
 
 # ---------------------------------------------------------------------------------- SBytes
